@@ -75,7 +75,7 @@ def _conversions(node, crate, stream_ty, depth=0, seen=()):
                 target = c.get("self_ty") or c.get("impl_ty") or ""
                 if name == "try_into":
                     target = n.get("ty") or ""
-                convs.append(target)
+                convs.append("%s -> %s" % (name, target))
             continue
         key = c.get("inst_key") or c.get("key")
         b = crate.by_key.get(key)
@@ -103,10 +103,10 @@ def r18_1(duke, R, spec):
                 # which position? the arm bodies construct Type::X (plain) or Type::Array(_, ArrayType::X)
                 for cp in range(0x20, 0x7f):
                     ch = chr(cp)
-                    loc = H.local_of(m["scrut"])
-                    ev = T.Evaluator()
+                    # the dispatched code point is given to the match itself (whatever expression the scrutinee is)
+                    ev = T.Evaluator(scrut_override={id(m): ("i", cp)})
                     try:
-                        got = ev.match(m, {loc[0]: ("i", cp)} if loc else {})
+                        got = ev.match(m, {})
                     except T.Return as r:
                         got = r.v
                     want = spec["field_type_terminals"].get(ch)
@@ -135,7 +135,7 @@ def r18_1(duke, R, spec):
                     if vals and ord("L") in vals:
                         arm = a
                 convs = _conversions(arm["body"], duke, stream_ty, seen=(rft["key"],)) if arm is not None else []
-                okc = bool(convs) and all("ObjClassName" in t for t in convs)
+                okc = bool(convs) and all(t.startswith(("try_from ->", "try_into ->")) and "ObjClassName" in t for t in convs)
                 R.inst("R18.1", "object-name-validated-as-ObjClassName:%s" % _pos_of(m), okc, sp=(arm or m)["sp"], got=convs,
                        expect="the name between `L` and `;` goes through ObjClassName::try_from (rejects empty names, '.', ';', '[' and array names)")
         # the 255 guard dominates the increment of the dimension counter (path condition at the increment, any guard shape)
@@ -212,35 +212,87 @@ def r18_1(duke, R, spec):
                     rds = [x for x in H.walk(n) if H.is_call(x, "read_field_type")]
                     ok_close = len(brk) == 1 and len(rds) == 1 and len(closes) == 1
             R.inst("R18.1", "method-parameter-loop", ok_close, sp=b["sp"], detail="parameters are read until `)`")
-    # writer table
+    # writer table: for every Type / ArrayType value the sequence of constants appended on the path taken (helpers of the module inlined,
+    # terminals may travel through a local: `let c = match t {..}; string.push(c)`)
     wft = duke.fn("write_field_type")
     if R.anchor("R18.1", "fn write_field_type", wft):
         inv = {v: k for k, v in spec["field_type_terminals"].items()}
-        ms = [n for n in H.walk(wft["body"]) if n.get("k") == "match"]
+        owner = wft["path"].rsplit("::", 1)[0]
+        helpers = {b["key"]: b for b in duke.bodies if b["path"].rsplit("::", 1)[0] == owner and b["key"] != wft["key"] and b.get("dk") == "Fn"}
+        tadt = next((a for p_, a in duke.adts.items() if p_.endswith("descriptor::Type")), None)
+        aadt = next((a for p_, a in duke.adts.items() if p_.endswith("descriptor::ArrayType")), None)
         seen = 0
-        for m in ms:
-            for a in m["arms"]:
-                v = H.pat_variant(a["pat"])
-                if not v or not (v[0] or "").endswith(("descriptor::Type", "descriptor::ArrayType")):
+        if R.anchor("R18.1", "enums descriptor::Type and descriptor::ArrayType", tadt and aadt, sp=wft["sp"]):
+            def seq_for(value):
+                ev = _WriterEval(inline=helpers)
+                ev.run_fn(wft, [value, T.sym("out")])
+                return [e for e in ev.effects if e[0] in ("push", "str", "loop")], ev
+
+            def want_for(vname):
+                return [("push", inv[vname])] if vname != "Object" else [("push", "L"), ("str", "name"), ("push", ";")]
+
+            def norm(seq):
+                return [(k_, ("name" if "name" in T.show(v) else T.show(v)) if k_ == "str" else (v[1] if v[0] == "s" else T.show(v))) for k_, v in seq]
+            for v in tadt["variants"]:
+                vn = v["name"]
+                if vn == "Array":
                     continue
-                if v[1] == "Array":
-                    pushes = [H.const_value(x["args"][0]) for x in H.walk(a["body"], ) if x.get("k") == "mcall" and x["name"] == "push" and not _inside_match(a["body"], x)]
-                    R.inst("R18.1", "write-terminal:Type::Array", pushes == ["["], sp=a["sp"], expect=["["], got=pushes,
-                           detail="one '[' per dimension, then the element type")
-                    fors = [x for x in H.walk(a["body"]) if x.get("k") == "for"]
-                    okf = len(fors) == 1 and H.render(fors[0]["iter"]).startswith("Range { start: 0")
-                    R.inst("R18.1", "write-array-dimension-loop", okf, sp=a["sp"])
-                    seen += 1
-                    continue
-                pushes = [H.const_value(x["args"][0]) for x in H.walk(a["body"]) if x.get("k") == "mcall" and x["name"] == "push"]
-                strs = [x for x in H.walk(a["body"]) if x.get("k") == "mcall" and x["name"] == "push_java_str"]
-                want = [inv.get(v[1])] if v[1] != "Object" else ["L", ";"]
-                ok = pushes == want and (len(strs) == (1 if v[1] == "Object" else 0))
-                kind = (v[0] or "").rsplit("::", 1)[-1]
-                R.inst("R18.1", "write-terminal:%s::%s" % (kind, v[1]), ok, sp=a["sp"], expect=want, got=pushes)
+                val = T.V(vn, *([T.sym("name")] if v["fields"] else []))
+                got, _ = seq_for(val)
+                ok = vn in inv and norm(got) == want_for(vn)
+                R.inst("R18.1", "write-terminal:Type::%s" % vn, ok, sp=wft["sp"], expect=want_for(vn) if vn in inv else "a JVMS field type", got=norm(got))
                 seen += 1
+            loop_ok = True
+            first = True
+            for v in aadt["variants"]:
+                vn = v["name"]
+                val = T.V("Array", T.sym("dim"), T.V(vn, *([T.sym("name")] if v["fields"] else [])))
+                got, _ = seq_for(val)
+                loops = [e for e in got if e[0] == "loop"]
+                rest = [e for e in got if e[0] != "loop"]
+                this_loop = (len(loops) == 1 and got and got[0][0] == "loop" and loops[0][1][0] == "st" and loops[0][1][1] == "Range"
+                             and loops[0][1][2].get("start") == ("i", 0) and T.show(loops[0][1][2].get("end", ("sym", "?"))) == "dim"
+                             and norm(loops[0][2]) == [("push", "[")])
+                loop_ok = loop_ok and this_loop
+                ok = vn in inv and norm(rest) == want_for(vn)
+                R.inst("R18.1", "write-terminal:ArrayType::%s" % vn, ok, sp=wft["sp"], expect=want_for(vn) if vn in inv else "a JVMS field type", got=norm(rest))
+                seen += 1
+            R.inst("R18.1", "write-terminal:Type::Array", loop_ok, sp=wft["sp"], expect="'[' once per dimension (loop over 0..dimension), before the element type",
+                   detail="one '[' per dimension, then the element type")
+            R.inst("R18.1", "write-array-dimension-loop", loop_ok, sp=wft["sp"])
+            seen += 1
         R.inst("R18.1", "write-table-size", seen == 19, sp=wft["sp"], expect=19, got=seen, nontrivial=False)
     R.floor("R18.1", 2 * 95 + 19 + 8)
+
+
+class _WriterEval(T.Evaluator):
+    """T.Evaluator that records, in order, what is appended to the output string on the evaluated path:
+    ("push", const) / ("str", value) / ("loop", iterator value, [what one iteration appends])."""
+
+    def __init__(self, inline=None):
+        super().__init__(inline=inline, max_inline=3, calls={
+            "push": lambda a: self._rec("push", a), "push_java": lambda a: self._rec("push", a),
+            "push_java_str": lambda a: self._rec("str", a), "push_str": lambda a: self._rec("str", a)})
+
+    def _rec(self, kind, args):
+        self.effects.append((kind, args[-1]))
+        return ("t", [])
+
+    def ev(self, n, env):
+        if n.get("k") == "for":
+            it = self.ev(n["iter"], env)
+            saved, self.effects = self.effects, []
+            try:
+                try:
+                    self.ev(n["body"], dict(env))
+                except T.Break:
+                    pass
+                inner = [e for e in self.effects if e[0] in ("push", "str", "loop")]
+            finally:
+                self.effects = saved
+            self.effects.append(("loop", it, inner))
+            return ("t", [])
+        return super().ev(n, env)
 
 
 def _bool_components(v):
